@@ -11,11 +11,11 @@ import (
 
 	bc "github.com/kardiachain/go-kardia/blockchain"
 	"github.com/kardiachain/go-kardia/configs"
+	"github.com/kardiachain/go-kardia/consensus"
+	"github.com/kardiachain/go-kardia/lib/common"
 	"github.com/kardiachain/go-kardia/lib/log"
 	"github.com/kardiachain/go-kardia/lib/p2p"
 	bcproto "github.com/kardiachain/go-kardia/proto/kardiachain/blockchain"
-	"github.com/kardiachain/go-kardia/consensus"
-	"github.com/kardiachain/go-kardia/lib/common"
 	kcons "github.com/kardiachain/go-kardia/proto/kardiachain/consensus"
 	kbits "github.com/kardiachain/go-kardia/proto/kardiachain/libs/bits"
 	prototx "github.com/kardiachain/go-kardia/proto/kardiachain/txpool"
